@@ -317,10 +317,16 @@ class FetchAtt:
     ####################################################################
     #
     def _single_section(
-        self, msg: Message | EmailMessage, section: int | str
+        self,
+        msg: Message | EmailMessage,
+        section: int | str,
+        top_level: bool = False,
     ) -> bytes:
         """
         Flatten message text from single top level section.
+
+        `top_level` is True when `msg` is the message itself and not one of
+        its body parts.
         """
         match section:
             case int():
@@ -382,10 +388,13 @@ class FetchAtt:
                     case "HEADER":
                         # if the content type is message/rfc822 then to get the
                         # headers we need to use the first sub-part of this
-                        # message.
+                        # message... unless this is the message itself and
+                        # not a body part: `BODY[HEADER]` is the header of
+                        # the message, whatever its content type is.
                         #
                         if (
-                            msg.is_multipart()
+                            not top_level
+                            and msg.is_multipart()
                             and msg.get_content_type() == "message/rfc822"
                         ):
                             return msg_headers_as_bytes(
@@ -409,13 +418,16 @@ class FetchAtt:
     ####################################################################
     #
     def _body(
-        self, msg: Message | EmailMessage, section: None | list[int | str]
+        self,
+        msg: Message | EmailMessage,
+        section: None | list[int | str],
+        top_level: bool = True,
     ) -> bytes:
         if not section:
             return msg_as_bytes(msg)
 
         if len(section) == 1:
-            return self._single_section(msg, section[0])
+            return self._single_section(msg, section[0], top_level)
 
         if isinstance(section[0], int):
             # We have an integer sub-section. This means that we
@@ -433,7 +445,7 @@ class FetchAtt:
             try:
                 bp = msg.get_payload(section[0] - 1)
                 assert isinstance(bp, Message)
-                return self._body(bp, section[1:])
+                return self._body(bp, section[1:], top_level=False)
             except (TypeError, IndexError) as err:
                 raise BadSection(
                     f"Message does not contain subsection {section[0]} "
